@@ -23,6 +23,7 @@ func init() {
 }
 
 func runC13(r *Run) {
+	defer importProcessLocal(r, "RM", "x/coinomics")
 	P := r.P
 	const ck = "x/coinomics/keeper"
 	modName, _ := P.constOf(haqqMod+"/x/coinomics/types", "ModuleName")
